@@ -5,6 +5,14 @@ V = os.path.dirname(os.path.dirname(os.path.abspath(__file__)))
 props = [json.loads(l) for l in open(os.path.join(V, 'properties.jsonl'))]
 
 CHECKS = {
+ 'C10': dict(level='model_checking', design='3/C10',
+   text='The reference Outcome for dry configurations (tree unchanged, nothing recorded, same exit status and failing patch as the real configuration) is computed by TLC for every enumerated scenario; real --dry-run runs (1-3 threads, all backup modes) must leave the recursive snapshot incl. inode, mtime and directory entries unchanged, exit and name the failing patch as the reference and as a real run on the same workspace do; every 12th run is traced with strace on the binary and may show no write-class system call.',
+   note='Trusted: TLC, snapshotter, strace decoding.',
+   technique='TLA+ reference model enumerated by TLC, replay into the binary with metadata snapshots and strace'),
+ 'C14': dict(level='model_checking', design='3/C14',
+   text='No action or operator of the specification reads the presentation/loader options, so the reference Outcome is independent of them by construction; a stratified sample of TLC-enumerated scenarios plus special workspaces (zero-length source and patch files, empty series, nothing to do) is pushed with 9 option variants; snapshots and exit status must be pairwise identical and the baseline equal to the reference.',
+   note='Trusted: TLC, snapshotter. Metamorphic comparison across option variants.',
+   technique='TLA+ reference model + metamorphic replay of TLC-enumerated scenarios across option variants'),
  'C09': dict(level='model_checking', design='3/C09',
    text='Cmd.tla models goal resolution and the applied-patches prefix rule; MC_Cmd enumerates every plan of up to 3 (thorough 4) invocations over a 4-patch series with an optional failing patch, checks in the model that composing invocations equals one push to the furthest goal, and emits each plan; the real binary executes the plan as consecutive processes (mixed thread counts) and its exit statuses, tree, rejects and applied-patches are compared with the model and with a real single push.',
    note='Trusted: TLC, scen.py. Backups are excluded from the comparison as the property says.',
